@@ -223,6 +223,8 @@ pub struct Bounds {
     pub deviations: usize,
     /// Optional cap on non-default choices per kind
     pub per_kind: [usize; KINDS],
+    /// Cap on scheduling deviations (task order + select branch) taken together
+    pub sched_cap: usize,
     pub max_wall: Duration,
     pub max_runs: u64,
 }
@@ -232,12 +234,17 @@ impl Bounds {
         Self {
             deviations,
             per_kind: [usize::MAX; KINDS],
+            sched_cap: usize::MAX,
             max_wall: Duration::from_secs(3600),
             max_runs: u64::MAX,
         }
     }
     pub fn cap(mut self, kind: u8, n: usize) -> Self {
         self.per_kind[kind as usize] = n;
+        self
+    }
+    pub fn sched(mut self, n: usize) -> Self {
+        self.sched_cap = n;
         self
     }
     pub fn wall(mut self, d: Duration) -> Self {
@@ -378,10 +385,19 @@ impl<'a, S: Scenario> Shared<'a, S> {
             if per_kind[p.kind as usize] >= self.bounds.per_kind[p.kind as usize] {
                 continue;
             }
+            if (p.kind == KIND_TASK || p.kind == KIND_SELECT)
+                && per_kind[KIND_TASK as usize] + per_kind[KIND_SELECT as usize]
+                    >= self.bounds.sched_cap
+            {
+                continue;
+            }
             for alt in 1..p.n {
                 let mut c = taken[..i].to_vec();
                 c.push(alt);
                 kids.push(c);
+            }
+            if std::env::var_os("VERIF_DEBUG_SCHED2").is_some() {
+                eprintln!("  kid at {i} kind {} n {} per_kind {:?} cap {}", p.kind, p.n, per_kind, self.bounds.sched_cap);
             }
         }
         kids
@@ -467,6 +483,9 @@ pub fn explore<S: Scenario>(s: &S, bounds: &Bounds) -> SchedStats {
                         break;
                     };
                     let kids = sh.run_one(&p, level, !last);
+                    if std::env::var_os("VERIF_DEBUG_SCHED").is_some() {
+                        eprintln!("level {level} prefix_len {} devs {:?} kids {}", p.len(), p.iter().enumerate().filter(|(_, x)| **x != 0).map(|(i, x)| (i, *x)).collect::<Vec<_>>(), kids.len());
+                    }
                     if !kids.is_empty() {
                         next.lock().unwrap().extend(kids);
                     }
@@ -715,6 +734,13 @@ pub fn with_wire<R>(f: impl FnOnce(&[WireFrame]) -> R) -> R {
 
 /// Deterministic ISN / DNS-id / jitter source: the harness fixes the values.
 pub fn install_rand(isns: Vec<u32>, dns_ids: Vec<u16>) {
+    install_rand_jitter(isns, dns_ids, false)
+}
+
+/// `jitter`: the latency jitter fraction is an environment choice {0, 1/2, ~1}; otherwise it is
+/// fixed at 0 (use this when no network has a variable latency - `Latency::next` draws a random
+/// number even when its randomness is zero).
+pub fn install_rand_jitter(isns: Vec<u32>, dns_ids: Vec<u16>, jitter: bool) {
     use elvis_core::verif::RandSite;
     let mut isn_i = 0usize;
     let mut dns_i = 0usize;
@@ -730,11 +756,17 @@ pub fn install_rand(isns: Vec<u32>, dns_ids: Vec<u16>) {
             v as u64
         }
         // jitter fraction numerator over 2^24: an environment choice {0, 1/2, ~1}
-        RandSite::LatencyJitter => match choose(KIND_ENV, 3) {
-            0 => 0,
-            1 => 1 << 23,
-            _ => (1 << 24) - 1,
-        },
+        RandSite::LatencyJitter => {
+            if !jitter {
+                0
+            } else {
+                match choose(KIND_ENV, 3) {
+                    0 => 0,
+                    1 => 1 << 23,
+                    _ => (1 << 24) - 1,
+                }
+            }
+        }
         RandSite::LossCoin => (1 << 24) - 1,
     })));
 }
